@@ -5,7 +5,7 @@ from models import refinterp, refscan
 
 ID = "C03"
 RULE = (
-    "case = (ordered pair (thorough: triple) of writer components from a 29-component alphabet - assignments with and without tracking "
+    "case = (ordered pair (thorough: triple) of writer components from a 30-component alphabet - assignments with and without tracking "
     "keys, from headers, other variables and arithmetic on the previous value, tally/sum/subtotal/counter/first/count(value) with name "
     "qualifiers and onmatch, push/push.distinct/pop/peek/peek_size, count()/count_lines()/count_scans()/line_number() - with a filter "
     "component in no/first/last position; file of <=3 records; scan window); the real run is compared with models/refinterp.py on the "
@@ -14,7 +14,7 @@ RULE = (
     ">=2 variables written and at least one line rejected; state = (variables, counters, record)"
 )
 BOUNDS = {
-    "quick": "812 ordered pairs x {no filter, filter first, filter last} x 16 files x window *; pairs x 6 files x windows {1*, 1-2}",
+    "quick": "870 ordered pairs x {no filter, filter first, filter last} x 16 files x window *; pairs x 6 files x windows {1*, 1-2}",
     "thorough": "pairs x 3 filters x 3 positions x all 259 files of <=3 records x 3 windows; triples over a 12-writer subset x 20 files",
 }
 CHUNK = 60
@@ -48,6 +48,7 @@ WRITERS = [
     fn("subtotal", ["st"], [H0, H1]),
     fn("counter", ["c1"], []),
     fn("counter", ["c5"], [T(5)]),
+    fn("counter", ["c0"], [T(0)]),
     fn("first", ["f1"], [H0]),
     fn("first", ["f2"], [H0, H1]),
     fn("count", ["cn"], [H0]),
@@ -66,6 +67,7 @@ WRITERS = [
     ["->", ["==", H0, T("1")], ["=", ["v", "w"], [], H1]],
     ["->", ["==", H0, T("1")], ["=", ["v", "p2"], [], fn("pop", [], [T("s")])]],
 ]
+XON = next(i for i, w in enumerate(WRITERS) if w[0] == "=" and w[1][1] == "x" and "onmatch" in w[2])
 FILTERS = [["==", H0, T("1")], fn("no"), ["==", H1, T("2")]]
 PRINT = fn("print", [], [T("$.csvpath.count_scans $.csvpath.line_number ")])
 ROWS = {"p": ["1", "2"], "q": ["2", "1"], "r": ["10", "9"], "e": ["", "x"], "s": ["abc"], "b": None}
@@ -82,7 +84,7 @@ def all_files(nmax):
 def programs(tier):
     pairs = list(itertools.permutations(range(len(WRITERS)), 2))
     for a, b in pairs:
-        if 26 in (a, b) and (0 in (a, b) or 2 in (a, b)):
+        if XON in (a, b) and (0 in (a, b) or 2 in (a, b)):
             continue  # a second writer/reader of @x next to '@x.onmatch = ...': look-ahead order is documented as unreliable
         base = [WRITERS[a], WRITERS[b]]
         yield base
@@ -102,7 +104,7 @@ def cases(tier, seed):
     if tier == "quick":
         pairs = list(itertools.permutations(range(len(WRITERS)), 2))
         for a, b in pairs:
-            if 26 in (a, b) and (0 in (a, b) or 2 in (a, b)):
+            if XON in (a, b) and (0 in (a, b) or 2 in (a, b)):
                 continue
             for f in FILES_W:
                 for w in ([["from", 1]], [["range", 1, 2]]):
@@ -112,7 +114,7 @@ def cases(tier, seed):
             for f in FILES_W + ["pqrs", "sepq"]:
                 for w in ([["from", 1]], [["range", 1, 2]], [["line", 0], ["line", 2]]):
                     yield {"comps": comps, "file": f, "scan": w}
-        sub = [WRITERS[i] for i in (0, 3, 5, 7, 9, 10, 12, 15, 17, 18, 20, 26)]
+        sub = [WRITERS[i] for i in (0, 3, 5, 7, 9, 10, 13, 16, 18, 19, 21, XON)]
         for t in itertools.permutations(range(len(sub)), 3):
             for f in FILES_Q + FILES_W:
                 yield {"comps": [sub[i] for i in t] + [FILTERS[0]], "file": f, "scan": [["all"]]}
